@@ -11,6 +11,8 @@ from .spec import INF, Ref
 
 SMALL = st.integers(-16, 16)
 DECIMALS = [0.1, 0.3, 0.7, 0.013, 1.1, 2.9, 0.0]
+# "no bound": usually infinity, sometimes the huge-but-finite encodings used by AMPL / CUTEst / Ipopt models
+NO_BOUND = st.sampled_from([INF] * 8 + [1e20, 1e30])
 
 
 def dy(draw, lo=-16, hi=16, den=8.0):
@@ -65,9 +67,9 @@ def var_bounds(draw, n, kinds=("free", "lower", "upper", "boxed", "fixed"), cent
         if kind == "free":
             lb.append(-INF), ub.append(INF)
         elif kind == "lower":
-            lb.append(lo), ub.append(INF)
+            lb.append(lo), ub.append(draw(NO_BOUND))
         elif kind == "upper":
-            lb.append(-INF), ub.append(hi)
+            lb.append(-draw(NO_BOUND)), ub.append(hi)
         elif kind == "boxed":
             if lo == hi:
                 hi = lo + 0.125
@@ -91,9 +93,9 @@ def row_bounds(draw, m, kinds=("eq0", "eqnz", "lower", "upper", "ranged"), cente
             val = c if c != 0.0 else draw(st.sampled_from([-1.5, -0.25, 0.5, 2.0]))
             cl.append(val), cu.append(val)
         elif kind == "lower":
-            cl.append(lo), cu.append(INF)
+            cl.append(lo), cu.append(draw(NO_BOUND))
         elif kind == "upper":
-            cl.append(-INF), cu.append(hi)
+            cl.append(-draw(NO_BOUND)), cu.append(hi)
         else:
             if lo == hi:
                 hi = lo + 0.125
@@ -496,6 +498,41 @@ def degenerate_spec(draw, max_n=4):
 
 
 @st.composite
+def patternvar_spec(draw, max_n=4):
+    """Jacobian entries J_ij = h_ij * x_j (and Hessian entries) vanish exactly where x_j = 0, and some
+    variables have the bound 0 with the objective pushing against it: the sparsity pattern returned by
+    the callbacks changes along the run and at the solution, often with the same number of entries."""
+    n = draw(st.integers(2, max_n))
+    m = draw(st.integers(1, 2))
+    L = np.tril(np.array(dmat(draw, n, n, -4, 4, 8.0)))
+    Q = (L @ L.T + np.eye(n)).tolist()
+    q = [draw(st.sampled_from([-2.0, -0.5, 0.5, 1.0, 3.0])) for _ in range(n)]
+    Hc = [np.diag([draw(st.sampled_from([-2.0, -0.5, 1.0, 1.0, 3.0])) for _ in range(n)]).tolist() for _ in range(m)]
+    lb, ub = [], []
+    for j in range(n):
+        k = draw(st.sampled_from(["zero_lb", "zero_lb", "zero_ub", "free", "boxed0"]))
+        if k == "zero_lb":
+            lb.append(0.0), ub.append(draw(st.sampled_from([INF, 2.0])))
+        elif k == "zero_ub":
+            lb.append(draw(st.sampled_from([-INF, -2.0]))), ub.append(0.0)
+        elif k == "boxed0":
+            lb.append(-1.0), ub.append(1.0)
+        else:
+            lb.append(-INF), ub.append(INF)
+    spec = {"n": n, "m": m, "Q": Q, "q": q, "A": [[0.0] * n for _ in range(m)], "Hc": Hc, "b": [0.0] * m,
+            "lb": lb, "ub": ub, "cl": [0.0] * m, "cu": [0.0] * m}
+    xf = [min(max(draw(st.sampled_from([-1.0, 0.0, 0.0, 0.5, 1.0])), lb[j]), ub[j]) for j in range(n)]
+    cf = Ref(spec).c(np.array(xf))
+    cl, cu = draw(row_bounds(m, kinds=("eq0", "lower", "upper", "ranged"), center=[0.0] * m))
+    spec["b"] = [float(t) for t in cf]
+    spec["cl"], spec["cu"] = cl, cu
+    spec["xf"] = xf
+    spec["fmt"] = draw(FMT)
+    spec["family"] = "patternvar"
+    return spec
+
+
+@st.composite
 def any_spec(draw, families=("nlp", "qp", "degenerate"), max_n=5, max_m=3, magnify=True):
     fam = draw(st.sampled_from(families))
     if fam == "nlp":
@@ -510,6 +547,8 @@ def any_spec(draw, families=("nlp", "qp", "degenerate"), max_n=5, max_m=3, magni
         s = draw(infeasible_spec(max_n=min(max_n, 4)))
     elif fam == "unbounded":
         s = draw(unbounded_spec(max_n=min(max_n, 4)))
+    elif fam == "patternvar":
+        s = draw(patternvar_spec(max_n=min(max_n, 4)))
     else:
         raise ValueError(fam)
     if magnify and draw(st.integers(0, 3)) == 0:
